@@ -22,8 +22,8 @@ func init() {
 	register(&Check{
 		ID:    "C06",
 		Level: "model_checking",
-		Rule: "product per producing transaction type (send, send-with-caller, deposit, deposit-with-caller, replace-message, replace-deposit) over destination domains {0,1,2^32-1}, 32-byte patterns for recipient/caller/mint recipient, " +
-			"bodies of length {0,1,132,max}, amounts {1,2^64+1,whole balance}, 3 submitters, at 3 history points (fresh / after traffic / after a pause-unpause cycle); every MessageSent is reference-decoded and compared field by field " +
+		Rule: "product per producing transaction type (send, send-with-caller, deposit, deposit-with-caller, replace-message, replace-deposit) over destination domains {0,1,4,256,2^32-1}, six 32-byte patterns for recipient/caller/mint recipient, " +
+			"bodies of length {0,1,131,132,133,4096,7999,max}, amounts {1,2^64+1,whole balance}, 3 submitters, at 3 history points (fresh / after traffic / after a pause-unpause cycle); every MessageSent is reference-decoded and compared field by field " +
 			"with the request, the response nonce and the DepositForBurn event; a replacement's event is compared with the original deposit's event; distinct_nontrivial = distinct successful cases checked",
 		Assumptions: []string{"an empty destination caller in the DepositForBurn event of a caller-less deposit is identified with all-zero", "the deposit event's burn_token is constrained only through the replacement-equals-original clause"},
 		Jobs:        c06Jobs,
@@ -49,7 +49,8 @@ func c06Jobs(tier string) []Job {
 
 func c06Scenario() Scenario {
 	g := BaseGenesis()
-	g.TokenMessengerList = append(g.TokenMessengerList, cctptypes.RemoteTokenMessenger{DomainId: 1<<32 - 1, Address: distinct32(0xBA)})
+	g.TokenMessengerList = append(g.TokenMessengerList, cctptypes.RemoteTokenMessenger{DomainId: 1<<32 - 1, Address: distinct32(0xBA)},
+		cctptypes.RemoteTokenMessenger{DomainId: 4, Address: distinct32(0xBB)}, cctptypes.RemoteTokenMessenger{DomainId: 256, Address: pad32(UserA.Addr)})
 	lg := DefaultLedger()
 	lg.Balances[UserA.Str] = bigPow2(66).String()
 	lg.Balances[UserB.Str] = "5000"
@@ -97,6 +98,18 @@ func c06Run(r *Run, hp, kind string) {
 		return b
 	}()}
 	subs := []Account{UserA, UserB, Owner}
+	{
+		pats = append(pats, pad32(UserB.Addr), append(bytes.Repeat([]byte{0}, 31), 0x80), distinct32(0x9E))
+		mk := func(n int, mul byte) []byte {
+			b := make([]byte, n)
+			for i := range b {
+				b[i] = byte(i)*mul + 1
+			}
+			return b
+		}
+		bodies = append(bodies, mk(131, 3), mk(133, 5), mk(4096, 7), mk(7999, 11))
+		doms = append(doms, 4, 256)
+	}
 
 	check := func(a Action) (Outcome, Pred, bool) {
 		w.Load(base)
